@@ -173,8 +173,11 @@ class TopLevelVisitor(ast.NodeVisitor):
             ast.Module:
         """
         self.sourcelines = self.source.splitlines()
-        source_utf8  = self.source.encode('utf8')
-        pt = ast.parse(source_utf8)
+        # The source is decoded text: parse it as such (a coding cookie is
+        # ignored for text; re-encoding it as UTF-8 bytes would make the
+        # parser decode a non-UTF-8 module a second time). Only a byte order
+        # mark kept by the decoding has to go.
+        pt = ast.parse(self.source.lstrip('\ufeff'))
         return pt
 
     def process_finished(self, node):
